@@ -164,7 +164,8 @@ func sbrRun(t *testing.T, c sbrCase, prop string) (info sbrInfo, viol []sbViolat
 			}
 			var gates []chan struct{}
 			for _, r := range x.reqs {
-				r.sb.finished = true
+				// the case is over: what the handlers answer once their contexts are cancelled is not judged
+				r.sb.finished, r.gaveUp = true, true
 				if r.gate != nil && !r.released {
 					r.released = true
 					gates = append(gates, r.gate)
